@@ -43,7 +43,12 @@ class C13(F.Spec):
         elif kind == "random":
             ops.append("flashset 0 " + rb(rng, 1000).hex())
         elif kind == "foreign":
-            ops.append("flashset 0 " + (b"SUPLB\x07" + rb(rng, 200)).hex())
+            # a tag differing from the current one in any single byte, the layout-version byte included (versions this
+            # firmware does not know: older than 5, newer than 7, erased), in front of a non-zero identity
+            tag = bytearray(TAG7)
+            pos = rng.choice([0, 1, 2, 3, 4, 5, 5, 5])
+            tag[pos] = rng.choice([0, 4, 8, 9, 0x37, 0xFF]) if pos == 5 else (tag[pos] ^ (1 << rng.randrange(8)))
+            ops.append("flashset 0 " + (bytes(tag) + bytes([1 + rng.getrandbits(7) for _ in range(32)]) + rb(rng, 918)).hex())
         elif kind == "zeroid":
             z = rng.choice(["guid", "auth", "both"])
             guid = b"\0" * 16 if z in ("guid", "both") else rb(rng, 16)
@@ -212,6 +217,9 @@ class C13(F.Spec):
                                         "written, the rest 0xFF) was accepted at the next boot" % (torn, REC)))
                 torn = None
                 migr = sector is not None and sector[:10] == "5355504c41" and sector[10:12] in ("05", "06")
+                if sector is not None and not rejected and not (sector[:10] == "5355504c41" and sector[10:12] in ("05", "06", "07")):
+                    fs.append(F.Finding("foreign-sector-accepted", "a sector whose first six bytes are %s (not a known configuration tag) "
+                                        "was accepted as the configuration" % sector[:12]))
                 after = ("init", {"sector": sector, "rejected": rejected, "expect_rec": expect_rec,
                                   "expect_state": expect_state, "migr": sector[10:12] if migr else None,
                                   "wrote": any(x.startswith("FLASH write") for x in g)})
